@@ -6,13 +6,13 @@
 package main
 
 import (
-	"sync"
 	"encoding/json"
 	"fmt"
 	"os"
 	"reflect"
 	"sort"
 	"strings"
+	"sync"
 	"time"
 
 	"gitee.com/xuesongtao/protoc-go-valid/valid"
